@@ -591,7 +591,8 @@ def unit(index: int, seed: int, tier: str):
     for a in range(1, n_mc + 1):
         for b in range(4):
             plans.append([1, 7, a, b + 4 * rng.randrange(1000)])
-    limit = 64 if tier == "quick" else 8000
+    limit = 64 if tier == "quick" else 3000
+    total_positions = len(plans)
     if len(plans) > limit:
         # keep every kind represented
         by_kind: dict = {}
@@ -610,4 +611,8 @@ def unit(index: int, seed: int, tier: str):
             plans.append([2, *p1[1:], *p2[1:]])
     for j, f in enumerate(plans):
         tp2 = Tape(base_seed + 1 + j, preset={"w": w, "t": t_, "s": s_, "f": f})
-        yield tp2, run(tp2)
+        o2 = run(tp2)
+        if j == 0:
+            o2.count("units_all_fault_positions_enumerated" if total_positions <= limit else "units_fault_positions_sampled")
+            o2.count("fault_positions_total", total_positions)
+        yield tp2, o2
